@@ -6,8 +6,12 @@ package props
 //       callback or receiver shape × every input of a small alphabet, compiled Go is the oracle;
 //   1b. every exported function of strings/math/strconv/unicode with <=3 basic parameters × a boundary
 //       value alphabet: result through the interpreter == direct native call;
-//   2.  interpreted callbacks invoked concurrently from foreign goroutines, all interleavings within
-//       preemption bound 2 under the cooperative scheduler of package sched (real registry/lock code).
+//   2a. interpreted callbacks invoked concurrently from foreign goroutines, all interleavings of callback
+//       entry/exit and registry lock acquisitions within preemption bound 2 under the cooperative scheduler
+//       of package sched (real registry/lock code);
+//   2b. (c11_conc2.go) the data side of the same: every frame allocation / release inside a callback is a
+//       scheduling point, callbacks of all function shapes and proxies return different results in every call,
+//       compiled Go (package c11cb, the same text) is the oracle; plus an additive free-running stress run.
 
 import (
 	"encoding/json"
@@ -21,6 +25,7 @@ import (
 	gatomic "github.com/cosmos72/gomacro/atomic"
 	"github.com/cosmos72/gomacro/fast"
 
+	"verif/harness/c11cb"
 	"verif/harness/core"
 	"verif/harness/oracle"
 	"verif/harness/sched"
@@ -113,9 +118,12 @@ func c11Sig(p *oracle.Prog, want, got string) string {
 const c11RuleText = "part 1a (evaluations, twin execution vs compiled Go): programs = entry point {sort.Slice, sort.SliceStable, sort.Sort/Stable/Reverse/IsSorted on interpreted sort.Interface, sort.Search, strings.Map/FieldsFunc/IndexFunc/LastIndexFunc/TrimFunc, bytes.Map, " +
 	"fmt (Sprint/Sprintf verbs) of interpreted Stringer/error/Formatter/GoStringer through compiled helpers, io.ReadAll/ReadFull/bufio.Scanner (default and interpreted SplitFunc)/bufio.Reader over an interpreted io.Reader, io.Copy/fmt.Fprintf/io.WriteString/bufio.Writer/io.MultiWriter to an interpreted io.Writer, " +
 	"sync.Once.Do, errors.Is/As/Unwrap, container/heap, plain compiled callers} x shape {named func, closure capturing a local, method value, closure returned by another function, callback panicking at its 1st/2nd call and recovered by the interpreted caller; for interfaces: value/pointer receivers, pointer to value-receiver type, named non-struct types, promoted methods, interface variable} " +
+	"+ identity dimensions: 2-3 interpreted types with ONE underlying type (11 kinds incl. `type C A`, value/pointer receivers) implementing one compiled interface {fmt.Stringer, error, fmt.GoStringer, fmt.Formatter, sort.Interface, heap.Interface, io.Reader, io.Writer} with different method bodies, converted alternately through 24 conversion sites (assignment, return, conversion expression, literals, append, map/slice/array/field/pointer assignment, channel and select send, variadic/func-value/deferred-call arguments, named results ...) in 2-3 orders; typed CONSTANTS of such types through every site; ONE type converted to 2-4 compiled interfaces in every order; compiled interface narrowed to another compiled interface; two closures of one literal / two method values of one method (8 signatures on the specialised and the generic function path) called alternately by compiled code; callbacks re-entered through compiled code; " +
 	"x ALL inputs (permutations of <=4 [thorough 5] elements and all key sequences of length <=4 over {1,2} for sorts/heaps, all strings of length <=3 [4] over {a,B,space}, all chunkings of a 4-byte stream x EOF mode x failing read, writer modes ok/short/fail at 1st/2nd write); " +
 	"part 1b (evaluations): every exported function of strings, math, strconv, unicode [thorough: + unicode/utf8, math/bits] with <=3 parameters of basic kind x every combination of a boundary alphabet per kind, each through an interpreted wrapper function called from compiled code and as a call with constant arguments, compared with the direct native call; " +
-	"part 2 (states/transitions/traces): CallFrom(n,f) with n in {2,3} foreign goroutines x f in {closure capturing a variable, global function, method value, closure whose body calls sort.Slice with an interpreted less} x 1-2 calls per goroutine, the main thread calling f as well; every interleaving of callback entry/exit, goroutine start and spin-lock acquisitions within preemption bound 2 [thorough: 3 for n=2] on the real registry code; " +
+	"part 2a (states/transitions/traces): CallFrom(n,f) with n in {2,3} foreign goroutines x f in {closure capturing a variable, global function, method value, closure whose body calls sort.Slice with an interpreted less} x 1-2 calls per goroutine, the main thread calling f as well; every interleaving of callback entry/exit, goroutine start and spin-lock acquisitions within preemption bound 2 [thorough: 3 for n=2] on the real registry code [n=3: thorough only]; " +
+	"part 2b (states/transitions/traces): 24 constructors of package c11cb (ONE text compiled as the oracle and interpreted: 4 type-specialised and 16 generic function shapes incl. 2-3 results, named results, variadic, struct/interface values, nested interpreted call, recursion, defer, panic, compiled code calling back, declared function, method values; sort.Slice job, sort.Interface/fmt.Stringer/io.Reader through proxies with two types of one underlying type) x {own value per thread from the same constructor, one value shared} x {1,2} foreign goroutines + the interpreter's goroutine x {1,2} calls, different arguments in every call; scheduling points = callback enter/exit and EVERY frame allocation / release inside a callback (arguments received but not stored; results computed but not handed over); every interleaving within preemption bound 2 [thorough: 3 for 2 threads x 1 call]; each result == compiled Go; " +
+	"additive, not deciding: the same jobs free-running on 4 real goroutines x 4000 [60000] calls, every result compared with compiled Go; " +
 	"non-trivial = distinct (entry point, shape, Go outcome) over programs with a non-empty input [1a], distinct (function, arguments) whose native result is not the zero value [1b], distinct (scenario, schedule) with at least one thread switch [2]"
 
 func c11Run(c *core.Ctx) {
@@ -126,6 +134,9 @@ func c11Run(c *core.Ctx) {
 	// the scheduler part runs first so that its samples (schedules) make it into the evidence file
 	if part == "" || part == "conc" {
 		c11RunConc(c)
+	}
+	if (part == "" || part == "conc" || part == "stress") && !c.Expired() {
+		c11RunStress(c)
 	}
 	c.Rule(c11RuleText)
 	if c.Expired() {
@@ -239,6 +250,7 @@ type c11Model struct {
 	results []string
 	viol    []string
 	inside  map[int]int // tid -> callbacks in progress (entry seen, exit not yet)
+	window  bool        // part 2b: frame allocation / release inside a callback are scheduling points, spin-locks are not
 }
 
 func newC11Model() *c11Model {
@@ -296,8 +308,24 @@ func (m *c11Model) Fire(a sched.Action, parked map[int]sched.Op) {
 }
 
 func (m *c11Model) callbacks() sched.Callbacks {
+	var alloc func(s *sched.S, tid int, env *fast.Env, run *fast.Run, runGoid uintptr)
+	var free func(env *fast.Env)
+	if m.window {
+		alloc = func(s *sched.S, tid int, env *fast.Env, run *fast.Run, runGoid uintptr) {
+			m.windowPoint(s, tid, "alloc")
+		}
+		free = func(env *fast.Env) {
+			if s := sched.Current(); s != nil {
+				if tid := s.Tid(); tid >= 0 {
+					m.windowPoint(s, tid, "free")
+				}
+			}
+		}
+	}
 	return sched.Callbacks{
-		LockPoints: true,
+		LockPoints: !m.window,
+		Alloc:      alloc,
+		FreeEnv:    free,
 		GoID: func(s *sched.S, tid int, real uintptr) uintptr {
 			m.mu.Lock()
 			defer m.mu.Unlock()
@@ -407,7 +435,7 @@ func c11Scenarios(c *core.Ctx) []c11Scenario {
 	for _, n := range []int{2, 3} {
 		for _, f := range c11Callbacks {
 			for calls := 1; calls <= 2; calls++ {
-				if c.Quick() && ((calls == 2 && (n == 3 || f == "nested-sort")) || (n == 3 && (f == "global" || f == "method-value"))) {
+				if c.Quick() && (n == 3 || (calls == 2 && f == "nested-sort")) {
 					continue // thorough only
 				}
 				out = append(out, c11Scenario{N: n, F: f, Calls: calls})
@@ -417,132 +445,170 @@ func c11Scenarios(c *core.Ctx) []c11Scenario {
 	return out
 }
 
+// c11Unit is one scenario handed to the explorer.
+type c11Unit struct {
+	name    string // counter key
+	sigBase string
+	desc    string
+	bound   int
+	want    string
+	exec    func(prefix []int) c11Outcome
+	cas     func(schedule []int) interface{}
+	sample  func() interface{}
+}
+
+// c11Explore enumerates every schedule of u within its preemption bound. The root execution (no forced choice)
+// is run by every worker: it yields the list of first-level subtrees (prefix = root choices up to i, then an
+// alternative), which are the sharded units of work (numbered by *work across scenarios).
+func c11Explore(c *core.Ctx, u *c11Unit, work *int, outcomes map[string]bool, concSamples *int) {
+	var last c11Outcome
+	e := &sched.Explorer{Bound: u.bound, Stop: c.Expired}
+	e.Run = func(prefix []int) *sched.Execution {
+		last = u.exec(prefix)
+		// "a released thread did not come back within StuckAfter" is a wall-clock verdict of the scheduler:
+		// on a loaded machine it must persist over re-executions of the same schedule before it is believed
+		for retry := 0; retry < 2 && last.x.Stuck != "" && !strings.Contains(last.x.Stuck, "horizon"); retry++ {
+			last = u.exec(prefix)
+		}
+		return last.x
+	}
+	e.Check = func(x *sched.Execution) {
+		o := last
+		c.Eval(1)
+		c.Transitions(len(x.Points))
+		c.States(len(x.Points) + 1)
+		cas := u.cas(x.Choices)
+		switches := 0
+		for _, p := range x.Points {
+			if p.RunningEnabled && p.Chosen != p.RunningIdx {
+				switches++
+			}
+		}
+		if switches > 0 {
+			c.Nontrivial(fmt.Sprint("conc", u.name, x.Choices))
+		}
+		outcomes[o.results] = true
+		if x.Diverged != "" || x.Stuck != "" {
+			c.Violation(u.sigBase+"stuck-or-diverged", fmt.Sprintf("%s schedule %v: %s %s", u.desc, x.Choices, x.Stuck, x.Diverged), cas)
+			return
+		}
+		if x.Deadlock {
+			c.Violation(u.sigBase+"deadlock", fmt.Sprintf("%s schedule %v: deadlock, blocked %v", u.desc, x.Choices, x.Blocked), cas)
+		}
+		for _, v := range o.viol {
+			c.Violation(u.sigBase+strings.SplitN(v, ":", 2)[0], fmt.Sprintf("%s schedule %v: %s", u.desc, x.Choices, v), cas)
+		}
+		if o.results != u.want && !x.Deadlock {
+			var labels []string
+			for _, p := range x.Points {
+				labels = append(labels, p.Enabled[p.Chosen])
+			}
+			c.Violation(u.sigBase+"results", fmt.Sprintf("%s schedule %v: results %q, compiled Go (any schedule) %q; steps: %s", u.desc, x.Choices, o.results, u.want, strings.Join(labels, " ")), cas)
+		}
+		if c.WantSample() && switches > 1 && *concSamples < 3 {
+			*concSamples++
+			var labels []string
+			for _, p := range x.Points {
+				labels = append(labels, p.Enabled[p.Chosen])
+			}
+			c.Sample(map[string]interface{}{"part": "concurrent callbacks", "scenario": u.sample(), "schedule": labels, "results": o.results})
+		}
+	}
+	root := u.exec(nil)
+	again := u.exec(root.x.Choices)
+	if fmt.Sprint(again.x.Choices) != fmt.Sprint(root.x.Choices) || again.results != root.results || again.x.Diverged != "" {
+		panic(fmt.Sprintf("HARNESS: schedule replay is not deterministic for %s: %v %q / %v %q %s", u.desc, root.x.Choices, root.results, again.x.Choices, again.results, again.x.Diverged))
+	}
+	if c.Mine(*work) {
+		last = root
+		e.Executions++
+		e.Check(root.x)
+	}
+	*work++
+	if root.x.Diverged == "" && root.x.Stuck == "" {
+		x := root.x
+		for i := 0; i < len(x.Points) && !e.Capped; i++ {
+			p := x.Points[i]
+			base := 0
+			for j := 0; j < i; j++ {
+				if q := x.Points[j]; q.RunningEnabled && q.Chosen != q.RunningIdx {
+					base++
+				}
+			}
+			for alt := 0; alt < len(p.Enabled); alt++ {
+				if alt == p.Chosen {
+					continue
+				}
+				cost := base
+				if p.RunningEnabled && alt != p.RunningIdx {
+					cost++
+				}
+				if cost > u.bound {
+					continue
+				}
+				mine := c.Mine(*work)
+				*work++
+				if !mine {
+					continue
+				}
+				e.Explore(append(append([]int{}, x.Choices[:i]...), alt))
+				if e.Capped {
+					break
+				}
+			}
+		}
+	}
+	c.Traces(e.Executions)
+	c.Count(u.name, e.Executions)
+	if e.Capped {
+		c.Cap("deadline reached inside a concurrent scenario")
+	}
+}
+
 func c11RunConc(c *core.Ctx) {
 	scen := c11Scenarios(c)
-	bound := 2
 	c.Set("conc_scenarios", len(scen))
 	c.Set("preemption_bound", c.Pick(2, 2))
 	c.Set("preemption_bound_2_goroutines", c.Pick(2, 3))
 	// warm-up outside the scheduler: the first interpreter / first import of a process runs `go list`
 	func() {
 		ir := twin.NewFast()
-		twin.Catch(func() { ir.Eval(`import "sort"`) })
+		twin.Catch(func() {
+			ir.Eval(`import "sort"`)
+			for _, im := range c11cb.Imports {
+				ir.Eval(fmt.Sprintf("import %q", im))
+			}
+		})
 	}()
 	outcomes := map[string]bool{}
 	concSamples := 0
 	work := 0 // index of the unit of work (subtree) for sharding
+	// part 2b first: the data side of concurrent callbacks (c11_conc2.go)
+	if os.Getenv("VERIF_C11_CONC") != "registry" {
+		c11RunWindow(c, &work, outcomes, &concSamples)
+	}
 	for _, sc := range scen {
-		if c.Expired() {
+		if c.Expired() || os.Getenv("VERIF_C11_CONC") == "window" {
 			break
 		}
 		sc := sc
-		want := c11Expected(sc)
 		src := c11Source(sc)
-		var last c11Outcome
-		bound := bound
+		bound := 2
 		if c.Thorough() && sc.N == 2 {
 			bound = 3
 		}
-		e := &sched.Explorer{Bound: bound, Stop: c.Expired}
-		e.Run = func(prefix []int) *sched.Execution {
-			last = c11Exec(sc, prefix)
-			// "a released thread did not come back within StuckAfter" is a wall-clock verdict of the scheduler:
-			// on a loaded machine it must persist over re-executions of the same schedule before it is believed
-			for retry := 0; retry < 2 && last.x.Stuck != "" && !strings.Contains(last.x.Stuck, "horizon"); retry++ {
-				last = c11Exec(sc, prefix)
-			}
-			return last.x
-		}
-		e.Check = func(x *sched.Execution) {
-			o := last
-			c.Eval(1)
-			c.Transitions(len(x.Points))
-			c.States(len(x.Points) + 1)
-			cas := c11ConcCase{Kind: "conc", Scenario: sc, Schedule: x.Choices, Source: src}
-			switches := 0
-			for _, p := range x.Points {
-				if p.RunningEnabled && p.Chosen != p.RunningIdx {
-					switches++
-				}
-			}
-			if switches > 0 {
-				c.Nontrivial(fmt.Sprint("conc", sc, x.Choices))
-			}
-			outcomes[o.results] = true
-			sigBase := "C11|concurrent|" + sc.F + "|"
-			if x.Diverged != "" || x.Stuck != "" {
-				c.Violation(sigBase+"stuck-or-diverged", fmt.Sprintf("scenario %+v schedule %v: %s %s", sc, x.Choices, x.Stuck, x.Diverged), cas)
-				return
-			}
-			if x.Deadlock {
-				c.Violation(sigBase+"deadlock", fmt.Sprintf("scenario %+v schedule %v: deadlock, blocked %v", sc, x.Choices, x.Blocked), cas)
-			}
-			for _, v := range o.viol {
-				c.Violation(sigBase+strings.SplitN(v, ":", 2)[0], fmt.Sprintf("scenario %+v schedule %v: %s", sc, x.Choices, v), cas)
-			}
-			if o.results != want && !x.Deadlock {
-				c.Violation(sigBase+"results", fmt.Sprintf("scenario %+v schedule %v: results %q, sequential expectation %q", sc, x.Choices, o.results, want), cas)
-			}
-			if c.WantSample() && switches > 1 && concSamples < 3 {
-				concSamples++
-				var labels []string
-				for _, p := range x.Points {
-					labels = append(labels, p.Enabled[p.Chosen])
-				}
-				c.Sample(map[string]interface{}{"part": "concurrent callbacks", "scenario": sc, "schedule": labels, "results": o.results})
-			}
-		}
-		// The root execution (no forced choice) is run by every worker: it yields the list of first-level
-		// subtrees (prefix = root choices up to i, then an alternative), which are the sharded units of work.
-		root := c11Exec(sc, nil)
-		again := c11Exec(sc, root.x.Choices)
-		if fmt.Sprint(again.x.Choices) != fmt.Sprint(root.x.Choices) || again.results != root.results || again.x.Diverged != "" {
-			panic(fmt.Sprintf("HARNESS: schedule replay is not deterministic for %+v: %v %q / %v %q %s", sc, root.x.Choices, root.results, again.x.Choices, again.results, again.x.Diverged))
-		}
-		if c.Mine(work) {
-			last = root
-			e.Executions++
-			e.Check(root.x)
-		}
-		work++
-		if root.x.Diverged == "" && root.x.Stuck == "" {
-			x := root.x
-			for i := 0; i < len(x.Points) && !e.Capped; i++ {
-				p := x.Points[i]
-				base := 0
-				for j := 0; j < i; j++ {
-					if q := x.Points[j]; q.RunningEnabled && q.Chosen != q.RunningIdx {
-						base++
-					}
-				}
-				for alt := 0; alt < len(p.Enabled); alt++ {
-					if alt == p.Chosen {
-						continue
-					}
-					cost := base
-					if p.RunningEnabled && alt != p.RunningIdx {
-						cost++
-					}
-					if cost > bound {
-						continue
-					}
-					mine := c.Mine(work)
-					work++
-					if !mine {
-						continue
-					}
-					e.Explore(append(append([]int{}, x.Choices[:i]...), alt))
-					if e.Capped {
-						break
-					}
-				}
-			}
-		}
-		c.Traces(e.Executions)
-		c.Count(fmt.Sprintf("conc_executions[n=%d,f=%s,calls=%d]", sc.N, sc.F, sc.Calls), e.Executions)
-		if e.Capped {
-			c.Cap("deadline reached inside a concurrent scenario")
-		}
+		c11Explore(c, &c11Unit{
+			name:    fmt.Sprintf("conc_executions[n=%d,f=%s,calls=%d]", sc.N, sc.F, sc.Calls),
+			sigBase: "C11|concurrent|" + sc.F + "|",
+			desc:    fmt.Sprintf("scenario %+v", sc),
+			bound:   bound,
+			want:    c11Expected(sc),
+			exec:    func(prefix []int) c11Outcome { return c11Exec(sc, prefix) },
+			cas: func(schedule []int) interface{} {
+				return c11ConcCase{Kind: "conc", Scenario: sc, Schedule: schedule, Source: src}
+			},
+			sample: func() interface{} { return sc },
+		}, &work, outcomes, &concSamples)
 	}
 	c.Set("conc_distinct_result_sets_per_worker", len(outcomes))
 }
@@ -569,6 +635,47 @@ func c11Replay(c *core.Ctx, raw json.RawMessage) {
 					c11NativeFunc(c, st, &f, cas.Limit, nil, "")
 				} else {
 					c11NativeFunc(c, st, &f, cas.Limit, cas.Idx, cas.Shape)
+				}
+			}
+		}
+	case probe.Kind == "window":
+		var cas c11WCase
+		if err := json.Unmarshal(raw, &cas); err != nil {
+			panic(err)
+		}
+		twin.NewFast()
+		o := c11WExec(cas.Scenario, cas.Schedule)
+		for _, p := range o.x.Points {
+			fmt.Println("  ", p.Enabled[p.Chosen], "   enabled:", p.Enabled)
+		}
+		want := c11WExpected(cas.Scenario)
+		fmt.Println("results:", o.results, "\nwant:   ", want, "\ndeadlock:", o.x.Deadlock, o.x.Stuck, o.x.Diverged)
+		sigBase := "C11|concurrent-data|" + cas.Scenario.Cb + "|"
+		for _, v := range o.viol {
+			c.Violation(sigBase+strings.SplitN(v, ":", 2)[0], v, cas)
+		}
+		if want != o.results && !o.x.Deadlock {
+			c.Violation(sigBase+"results", fmt.Sprintf("results %q want %q", o.results, want), cas)
+		}
+		if o.x.Deadlock {
+			c.Violation(sigBase+"deadlock", fmt.Sprint(o.x.Blocked), cas)
+		}
+		if o.x.Stuck != "" || o.x.Diverged != "" {
+			c.Violation(sigBase+"stuck-or-diverged", o.x.Stuck+o.x.Diverged, cas)
+		}
+	case probe.Kind == "stress":
+		var cas c11StressCase
+		if err := json.Unmarshal(raw, &cas); err != nil {
+			panic(err)
+		}
+		for _, cb := range c11WCallbacks {
+			if cb.Name == cas.Cb {
+				wrong, first, crashed := c11StressOne(c11StressInterp(), cb, cas.Shared, cas.G, cas.Calls)
+				if crashed != nil {
+					c.Violation("C11|concurrent-stress|"+cb.Name+"|panic", fmt.Sprint(crashed), cas)
+				}
+				if wrong > 0 {
+					c.Violation("C11|concurrent-stress|"+cb.Name+"|results", fmt.Sprintf("%d wrong results, first: %s", wrong, first), cas)
 				}
 			}
 		}
